@@ -99,6 +99,21 @@ func genC05(t *core.Tape, tier string) *Scenario {
 			// the wire must still carry exactly one status, the handler's own
 			p.HErr.ProxyMeta = http.Header{"Grpc-Status": {"5"}, "Grpc-Message": {"upstream said no"}}
 			sc.Notes["proxied_status_keys"]++
+		} else if mode == 2 && t.Bool(1, 4, "forwarded.client.error") {
+			// the gateway pattern: the handler returns the error a connect-go
+			// client gave it for a backend call - whose metadata holds the
+			// backend response's headers, entity headers included
+			p.HErr.ProxyMeta = http.Header{
+				"Content-Type":     {"application/json"},
+				"Content-Length":   {"61"},
+				"Date":             {"Mon, 28 Sep 2026 10:00:00 GMT"},
+				"Accept-Encoding":  {"gzip"},
+				"Content-Encoding": {"gzip"},
+			}
+			if t.Bool(1, 2, "forwarded.no.encoding") {
+				delete(p.HErr.ProxyMeta, "Content-Encoding")
+			}
+			sc.Notes["forwarded_client_error"]++
 		}
 		if p.Kind == KServer || p.Kind == KBidi {
 			// the error follows k messages
